@@ -96,7 +96,14 @@ func specRefSlot(flavour string, template int) string {
 }
 
 // CheckAPI decides the API-handler part of the property for one configuration.
+func (c APICase) decoded() APICase {
+	c.UIBase, c.UIPath = unraw(c.UIBase), unraw(c.UIPath)
+	c.Reqs = unrawReqs(c.Reqs)
+	return c
+}
+
 func CheckAPI(c APICase) *kit.Violation {
+	c = c.decoded()
 	if c.Template < 0 || c.Template >= len(Templates) {
 		return kit.Failf("HARNESS: unknown template %d", c.Template)
 	}
